@@ -5,7 +5,8 @@
 
 use super::common::*;
 use crate::driver::{fnv64, Check, ChildResult, Tier, Violation};
-use crate::scenario::{execute_custom, Case};
+use crate::oracle::{canon, json_close, strip_volatile};
+use crate::scenario::{build_app, execute_custom, Case};
 use crate::sim::{self, Rng};
 use crate::world::{GraphParams, World};
 use routee_compass::app::compass::config::graph_builder::DefaultGraphBuilder;
@@ -86,8 +87,8 @@ fn compare_graph(w: &World, g: &Graph) -> Vec<String> {
     d
 }
 
-pub const ENUM_KINDS: [(&str, u64); 5] = [("short_read", 1), ("eintr_read", 0), ("eio_read", 0), ("eio_read", 1), ("short_read", 3)];
-pub const ENUM_GROUP: u64 = 160; // 32 read positions x 5 fault kinds per world
+pub const ENUM_KINDS: [(&str, u64); 7] = [("short_read", 1), ("eintr_read", 0), ("eio_read", 0), ("eio_read", 1), ("short_read", 3), ("bitflip_read", 5), ("bitflip_read", 70)];
+pub const ENUM_GROUP: u64 = 224; // 32 read positions x 7 fault kinds per world
 
 /// complete enumeration for small worlds: seeds of one group share a world; the position inside the
 /// group selects (index of the faulted read, fault kind). A position beyond the last read of the
@@ -109,11 +110,291 @@ fn gen_enumerate(base_seed: u64, seed: u64, family_index: u64) -> Case {
     let idx = pos / ENUM_KINDS.len() as u64;
     let mut simcfg = sim::SimCfg::default();
     simcfg.sched = sim::SchedMode::Cooperative;
-    simcfg.faults = sim::F_SHORT_READ | sim::F_EINTR_READ | sim::F_EIO_READ;
+    simcfg.faults = sim::F_SHORT_READ | sim::F_EINTR_READ | sim::F_EIO_READ | sim::F_BITFLIP_READ;
     simcfg.max_hard_faults = 1;
     simcfg.max_steps = 400_000;
+    // a flipped bit is only injected where it is detectable (checksummed gzip streams)
+    simcfg.trunc_paths = vec![".gz".into()];
     let recorded = sim::Recorded { sched: vec![], faults: vec![sim::FaultEv { at: "io".into(), idx, kind: kind.to_string(), arg }] };
     Case { check: "C15".into(), seed, family: "enumerate".into(), world: w, batches: vec![], workers: 1, run_parallelism: None, simcfg, recorded: Some(recorded), params: json!({"group": group, "read_index": idx, "kind": kind, "arg": arg}) }
+}
+
+// ---------------------------------------------------------------------------
+// families app-legal / app-hard: the whole application is built from its files while the simulator
+// faults read() and open(); every table loader the configuration names takes part (edge and vertex
+// lists, speed table, edge headings, road classes, geometries, vertex identifiers, the matching
+// plugin's copies of vertices / geometries / road classes). Oracle: the application built under
+// faults answers a batch exactly like the application built from the same files without faults;
+// plus generator-side checks that per-edge / per-vertex tables are aligned by row.
+// ---------------------------------------------------------------------------
+
+fn gen_app(seed: u64, family: &str, tier: Tier) -> Case {
+    use crate::world::Traversal;
+    let mut r = Rng::new(seed ^ fnv64("C15-app"));
+    let gp = GraphParams { nv: (2, if tier == Tier::Quick { 12 } else { 30 }), p_disconnected: 0.15, ..Default::default() };
+    let mut w = World::gen_graph(&mut r, &gp);
+    gen_traversal(&mut r, &mut w);
+    let has_time = !matches!(w.traversal, Traversal::Distance { .. });
+    if has_time && r.chance(0.6) {
+        w.headings = Some((0..w.ne()).map(|_| (r.below(360) as i16, if r.chance(0.7) { Some(r.below(360) as i16) } else { None })).collect());
+        w.turn_delays = Some(TURNS.iter().map(|t| (t.to_string(), many_digits(&mut r, 0.0, 30.0))).collect());
+    }
+    if r.chance(0.6) {
+        w.road_classes = Some((0..w.ne()).map(|_| r.below(4) as u8).collect());
+    }
+    w.uuid_plugin = r.chance(0.5);
+    w.gz_edges = r.chance(0.5);
+    w.gz_vertices = r.chance(0.5);
+    w.gz_tables = r.chance(0.5);
+    gen_algorithm(&mut r, &mut w, false, false);
+    w.traversal_plugin = Some((r.pick(&["geo_json", "json", "wkt", "edge_id", "geo_json"]).to_string(), None));
+    w.input_plugins = vec![];
+    let matching = r.below(3);
+    if matching == 1 {
+        w.input_plugins.push(json!({"type": "vertex_rtree", "vertices_input_file": w.vertices_path()}));
+    } else if matching == 2 {
+        w.edge_oriented = true;
+        let mut p = json!({"type": "edge_rtree", "geometry_input_file": w.table_path_pub("geoms")});
+        if w.road_classes.is_some() && r.chance(0.7) {
+            p["road_class_input_file"] = json!(w.table_path_pub("classes"));
+        }
+        w.input_plugins.push(p);
+    }
+    w.text_variant = *r.pick(&[0u8, 0, 0, 1, 2]);
+    w.explicit_counts = r.chance(0.4);
+    w.parallelism = 1;
+    let nq = r.range(2, 8) as usize;
+    let nv = w.nv() as u64;
+    let mut batch = vec![];
+    for qid in 0..nq {
+        let o = r.below(nv) as usize;
+        let d = r.below(nv) as usize;
+        let mut q = json!({"_qid": qid});
+        if matching == 0 {
+            q["origin_vertex"] = json!(o);
+            q["destination_vertex"] = json!(d);
+        } else {
+            q["origin_x"] = json!(w.coords[o].0);
+            q["origin_y"] = json!(w.coords[o].1);
+            q["destination_x"] = json!(w.coords[d].0);
+            q["destination_y"] = json!(w.coords[d].1);
+        }
+        if w.road_classes.is_some() && r.chance(0.5) {
+            let n = r.range(1, 4);
+            let mut cs: Vec<u64> = (0..n).map(|_| r.below(4)).collect();
+            cs.sort();
+            cs.dedup();
+            q["road_classes"] = json!(cs);
+        }
+        batch.push(q);
+    }
+    let mut simcfg = sim::SimCfg::default();
+    simcfg.sched = sim::SchedMode::Cooperative;
+    simcfg.max_steps = 1_000_000;
+    if family == "app-legal" {
+        simcfg.faults = sim::F_SHORT_READ | sim::F_EINTR_READ;
+        simcfg.io_fault_rate = *r.pick(&[0.02, 0.1, 0.4, 0.9]);
+    } else {
+        simcfg.faults = sim::F_SHORT_READ | *r.pick(&[sim::F_EIO_READ, sim::F_TRUNC_READ, sim::F_BITFLIP_READ, sim::F_EOPEN]);
+        simcfg.io_fault_rate = *r.pick(&[0.02, 0.1, 0.3]);
+        simcfg.max_hard_faults = 1;
+        simcfg.trunc_paths = vec![".gz".into()];
+    }
+    Case { check: "C15".into(), seed, family: family.to_string(), world: w, batches: vec![batch], workers: 1, run_parallelism: None, simcfg, recorded: None, params: Value::Null }
+}
+
+/// the slot a state feature gets in the state vector depends on the iteration order of a hash map that
+/// is seeded per application instance: state vectors are compared by feature name, not by position
+fn by_feature_name(resp: &Value) -> Value {
+    let mut x = strip_volatile(resp);
+    let names: BTreeMap<usize, String> = x["route"]["state_model"].as_object().map(|m| m.iter().filter_map(|(k, f)| f["index"].as_u64().map(|i| (i as usize, k.clone()))).collect()).unwrap_or_default();
+    fn walk(v: &mut Value, names: &BTreeMap<usize, String>) {
+        match v {
+            Value::Object(m) => {
+                if let Some(Value::Array(a)) = m.get("result_state") {
+                    let o: serde_json::Map<String, Value> = a.iter().enumerate().map(|(i, s)| (names.get(&i).cloned().unwrap_or_else(|| format!("slot{}", i)), s.clone())).collect();
+                    m.insert("result_state".into(), Value::Object(o));
+                }
+                m.remove("index");
+                for (_, c) in m.iter_mut() {
+                    walk(c, names);
+                }
+            }
+            Value::Array(a) => {
+                for c in a.iter_mut() {
+                    walk(c, names);
+                }
+            }
+            _ => {}
+        }
+    }
+    walk(&mut x, &names);
+    x
+}
+
+/// generator-side alignment checks on the responses of the application built without faults
+fn alignment_diffs(w: &World, responses: &[Value]) -> Vec<(String, String)> {
+    let mut d = vec![];
+    let fmt = w.traversal_plugin.as_ref().map(|p| p.0.clone()).unwrap_or_default();
+    for resp in responses {
+        if resp.get("error").is_some() {
+            continue;
+        }
+        let req = &resp["request"];
+        // vertex identifiers are the ones stored for the matched vertices
+        if w.uuid_plugin {
+            for (vk, uk) in [("origin_vertex", "origin_vertex_uuid"), ("destination_vertex", "destination_vertex_uuid")] {
+                if let (Some(v), Some(u)) = (req.get(vk).and_then(|x| x.as_u64()), resp.get(uk).and_then(|x| x.as_str())) {
+                    if u != crate::world::uuid_of(v as usize) {
+                        d.push(("uuid-misaligned".to_string(), format!("{} {} carries identifier {:?}, the file's row {} says {:?}", vk, v, u, v, crate::world::uuid_of(v as usize))));
+                    }
+                }
+            }
+        }
+        let path = &resp["route"]["path"];
+        // edge ids of the route, where the format shows them
+        let edge_ids: Option<Vec<usize>> = match fmt.as_str() {
+            "edge_id" => path.as_array().map(|a| a.iter().filter_map(|x| x.as_u64().map(|e| e as usize)).collect()),
+            "json" => path.as_array().map(|a| a.iter().filter_map(|x| x["edge_id"].as_u64().map(|e| e as usize)).collect()),
+            "geo_json" => path["features"].as_array().map(|a| a.iter().filter_map(|f| f["properties"]["edge_id"].as_u64().map(|e| e as usize)).collect()),
+            _ => None,
+        };
+        if let Some(ids) = &edge_ids {
+            // road classes are aligned with edge ids by row: no edge outside the query's allowed classes
+            if let (Some(rc), Some(allowed)) = (&w.road_classes, req.get("road_classes").and_then(|x| x.as_array())) {
+                let allowed: Vec<u64> = allowed.iter().filter_map(|x| x.as_u64()).collect();
+                // (edge-oriented searches report the matched origin / destination edges themselves, which the
+                // matching plugin filters with its own copy of the table when configured with it)
+                let inner: Vec<usize> = if w.edge_oriented && ids.len() >= 2 { ids[1..ids.len() - 1].to_vec() } else if w.edge_oriented { vec![] } else { ids.clone() };
+                for e in inner {
+                    if e < rc.len() && !allowed.contains(&(rc[e] as u64)) {
+                        d.push(("road-class-misaligned".to_string(), format!("route uses edge {} whose class in row {} of the file is {}, allowed {:?}", e, e, rc[e], allowed)));
+                    }
+                }
+            }
+        }
+        // geometries are aligned with edge ids by row
+        if fmt == "geo_json" {
+            for f in path["features"].as_array().cloned().unwrap_or_default() {
+                if let Some(e) = f["properties"]["edge_id"].as_u64().map(|e| e as usize) {
+                    if e >= w.ne() {
+                        continue;
+                    }
+                    let (a, b, _) = w.edges[e];
+                    let want = [w.coords[a], w.coords[b]];
+                    let got: Vec<(f32, f32)> = f["geometry"]["coordinates"].as_array().map(|c| c.iter().map(|p| (p[0].as_f64().unwrap_or(f64::NAN) as f32, p[1].as_f64().unwrap_or(f64::NAN) as f32)).collect()).unwrap_or_default();
+                    if got.len() != 2 || got[0] != (want[0].0 as f32, want[0].1 as f32) || got[1] != (want[1].0 as f32, want[1].1 as f32) {
+                        d.push(("geometry-misaligned".to_string(), format!("edge {}: geometry {:?} but row {} of the file says {:?}", e, got, e, want)));
+                    }
+                }
+            }
+        }
+    }
+    d.truncate(4);
+    d
+}
+
+fn run_app(case: &Case, fatal_fd: i32) -> ChildResult {
+    let out = execute_custom(case, fatal_fd, |case| {
+        let w = &case.world;
+        let cfg = w.config(true);
+        let batch = case.batches[0].clone();
+        let pool = crate::harness::make_pool(1);
+        let run = |app: &routee_compass::app::compass::compass_app::CompassApp| -> Value {
+            match std::panic::catch_unwind(std::panic::AssertUnwindSafe(|| pool.install(|| app.run(batch.clone(), None)))) {
+                Ok(Ok(v)) => json!(v.iter().map(by_feature_name).collect::<Vec<_>>()),
+                Ok(Err(e)) => json!({"run_error": e.to_string()}),
+                Err(_) => json!({"run_panic": true}),
+            }
+        };
+        // the application built from intact reads
+        let reference = match std::panic::catch_unwind(std::panic::AssertUnwindSafe(|| build_app(&cfg))) {
+            Ok(Ok(app)) => run(&app),
+            Ok(Err(e)) => json!({"build_error": e}),
+            Err(_) => json!({"build_panic": true}),
+        };
+        let _ = crate::scenario::take_panics();
+        // the application built while reads and opens are faulted
+        sim::set_quiet(false);
+        let built = std::panic::catch_unwind(std::panic::AssertUnwindSafe(|| build_app(&cfg)));
+        sim::set_quiet(true);
+        let got = match built {
+            Ok(Ok(app)) => run(&app),
+            Ok(Err(e)) => json!({"build_error": e}),
+            Err(_) => json!({"build_panic": true}),
+        };
+        json!({"reference": reference, "got": got})
+    });
+    let w = &case.world;
+    let mut v = vec![];
+    let mut reach: BTreeMap<String, u64> = BTreeMap::new();
+    for p in &out.panics {
+        v.push(Violation { class: format!("panic@{}", super::c12::panic_class(p).trim_start_matches("panic@")), detail: format!("panic while building / running: {} at {}", p.message, p.location) });
+    }
+    let hard_fired: u64 = out.stats.faults.iter().filter(|(k, _)| k.starts_with("eio") || k.starts_with("trunc") || k.starts_with("bitflip") || k.starts_with("eopen")).map(|(_, n)| *n).sum();
+    let eintr_fired: u64 = out.stats.faults.get("eintr_read").copied().unwrap_or(0);
+    let mut nontrivial = false;
+    if let Some(val) = &out.value {
+        let reference = &val["reference"];
+        let got = &val["got"];
+        match reference.as_array() {
+            None => v.push(Violation { class: "app-reference-failed".into(), detail: format!("the application could not be built / run from intact files: {}", reference.to_string().chars().take(400).collect::<String>()) }),
+            Some(refs) => {
+                nontrivial = refs.iter().any(|r| r.get("error").is_none());
+                *reach.entry("app_reference_successes".into()).or_insert(0) += refs.iter().filter(|r| r.get("error").is_none()).count() as u64;
+                for (c, d) in alignment_diffs(w, refs) {
+                    v.push(Violation { class: c, detail: d });
+                }
+                if let Some(e) = got.get("build_error") {
+                    let e = e.as_str().unwrap_or("");
+                    if hard_fired > 0 {
+                        *reach.entry("app_build_failed_after_hard_fault".into()).or_insert(0) += 1;
+                    } else if eintr_fired > 0 && e.contains("Interrupted") {
+                        *reach.entry("app_build_failed_on_eintr".into()).or_insert(0) += 1;
+                    } else {
+                        v.push(Violation { class: "app-load-failed".into(), detail: format!("building the application failed although the files are intact and only legal read behaviour was injected: {}", e) });
+                    }
+                } else if got.get("build_panic").is_some() {
+                    // (reported through the panic list)
+                } else if let Some(gs) = got.as_array() {
+                    *reach.entry(if hard_fired > 0 { "app_built_despite_hard_fault" } else { "app_built_under_legal_faults" }.into()).or_insert(0) += 1;
+                    let same = gs.len() == refs.len() && gs.iter().zip(refs.iter()).all(|(a, b)| json_close(a, b, 1e-12));
+                    if !same {
+                        let first = gs.iter().zip(refs.iter()).find(|(a, b)| !json_close(a, b, 1e-12));
+                        let detail = match first {
+                            Some((a, b)) => format!("built under faults: {} ;; built from intact reads: {}", canon(a).chars().take(500).collect::<String>(), canon(b).chars().take(500).collect::<String>()),
+                            None => format!("{} responses vs {}", gs.len(), refs.len()),
+                        };
+                        v.push(Violation { class: if hard_fired > 0 { "app-silently-different-after-hard-fault".into() } else { "app-differs".into() }, detail });
+                    }
+                } else {
+                    v.push(Violation { class: "app-run-failed".into(), detail: got.to_string().chars().take(400).collect() });
+                }
+            }
+        }
+    }
+    let mut put = |k: &str, b: bool| {
+        if b {
+            *reach.entry(k.to_string()).or_insert(0) += 1;
+        }
+    };
+    put("app_worlds_turn_delay", w.headings.is_some());
+    put("app_worlds_road_class", w.road_classes.is_some());
+    put("app_worlds_uuid", w.uuid_plugin);
+    put("app_worlds_edge_rtree", w.edge_oriented);
+    put("app_worlds_vertex_rtree", w.input_plugins.iter().any(|p| p["type"] == json!("vertex_rtree")));
+    ChildResult {
+        violations: v,
+        nontrivial,
+        signature: fnv64(&format!("{}|{:?}", serde_json::to_string(&w.edges).unwrap(), out.recorded.faults)),
+        reach,
+        sample: json!({"seed": case.seed, "family": case.family, "vertices": w.nv(), "edges": w.ne(), "gz": [w.gz_edges, w.gz_vertices, w.gz_tables], "route_format": w.traversal_plugin,
+            "turn_delay": w.headings.is_some(), "road_class": w.road_classes.is_some(), "uuid": w.uuid_plugin, "plugins": w.input_plugins,
+            "faults": out.recorded.faults.iter().take(6).collect::<Vec<_>>(), "sim_reads": out.stats.sim_reads, "sim_opens": out.stats.sim_opens}),
+        stats: Some(out.stats.clone()),
+        recorded: Some(out.recorded.clone()),
+        harness_error: None,
+    }
 }
 
 impl Check for C15 {
@@ -124,7 +405,7 @@ impl Check for C15 {
         "fault_enumeration"
     }
     fn families(&self, _tier: Tier) -> Vec<&'static str> {
-        vec!["legal", "enumerate", "hard", "legal", "enumerate", "nofault", "hard"]
+        vec!["legal", "enumerate", "hard", "app-legal", "legal", "enumerate", "app-hard", "nofault", "hard", "app-hard", "enumerate"]
     }
     fn default_runs(&self, tier: Tier) -> u64 {
         match tier {
@@ -141,6 +422,9 @@ impl Check for C15 {
     fn gen(&self, seed: u64, family: &str, tier: Tier) -> Case {
         if family == "enumerate" {
             return gen_enumerate(seed, seed, seed);
+        }
+        if family.starts_with("app-") {
+            return gen_app(seed, family, tier);
         }
         let mut r = Rng::new(seed ^ fnv64("C15"));
         let gp = match tier {
@@ -174,10 +458,10 @@ impl Check for C15 {
                 simcfg.io_fault_rate = *r.pick(&[0.05, 0.3, 0.9]);
             }
             "hard" => {
-                simcfg.faults = sim::F_SHORT_READ | sim::F_EINTR_READ | if r.chance(0.5) { sim::F_EIO_READ } else { sim::F_TRUNC_READ };
+                simcfg.faults = sim::F_SHORT_READ | sim::F_EINTR_READ | *r.pick(&[sim::F_EIO_READ, sim::F_TRUNC_READ, sim::F_BITFLIP_READ, sim::F_EOPEN, sim::F_EIO_READ, sim::F_TRUNC_READ]);
                 simcfg.io_fault_rate = *r.pick(&[0.05, 0.2, 0.5]);
                 simcfg.max_hard_faults = 1;
-                // truncation is only detectable (and only injected) on gzip streams
+                // truncation and flipped bits are only detectable (and only injected) on gzip streams
                 simcfg.trunc_paths = vec![".gz".into()];
             }
             _ => {}
@@ -186,6 +470,9 @@ impl Check for C15 {
         Case { check: "C15".into(), seed, family: family.to_string(), world: w, batches: vec![], workers: 1, run_parallelism: None, simcfg, recorded: None, params: Value::Null }
     }
     fn run(&self, case: &Case, fatal_fd: i32) -> ChildResult {
+        if case.family.starts_with("app-") {
+            return run_app(case, fatal_fd);
+        }
         let out = execute_custom(case, fatal_fd, |case| {
             let w = &case.world;
             let cfg = w.config(false);
@@ -215,7 +502,7 @@ impl Check for C15 {
         for p in &out.panics {
             v.push(Violation { class: format!("panic@{}", p.location), detail: format!("loader panicked: {} at {}", p.message, p.location) });
         }
-        let hard_fired: u64 = out.stats.faults.iter().filter(|(k, _)| k.starts_with("eio") || k.starts_with("trunc")).map(|(_, n)| *n).sum();
+        let hard_fired: u64 = out.stats.faults.iter().filter(|(k, _)| k.starts_with("eio") || k.starts_with("trunc") || k.starts_with("bitflip") || k.starts_with("eopen")).map(|(_, n)| *n).sum();
         let eintr_fired: u64 = out.stats.faults.get("eintr_read").copied().unwrap_or(0);
         let empty_ok = case.world.ne() == 0; // a speed table with no rows is rejected by design ("parsed 0 entries")
         if let Some(val) = &out.value {
@@ -254,7 +541,7 @@ impl Check for C15 {
         reach.insert("scanned_counts".into(), (!w.explicit_counts) as u64);
         reach.insert("misnamed_gz".into(), w.gz_misnamed as u64);
         if case.family == "enumerate" {
-            let fired = !out.recorded.faults.is_empty();
+            let fired = out.stats.faults.values().sum::<u64>() > 0;
             reach.insert(if fired { "enumerated_positions_fired".into() } else { "enumerated_positions_beyond_last_read".into() }, 1);
             if fired && case.params["read_index"].as_u64() == Some(ENUM_GROUP / ENUM_KINDS.len() as u64 - 1) {
                 reach.insert("enumeration_incomplete_worlds".into(), 1);
